@@ -229,9 +229,11 @@ Section Generic.
 
   (** specification of the stable sequential merge (C05), as far as a full or truncated merge of sorted
       sequences is concerned *)
-  Definition seqmerge_stable_spec : Prop :=
-    forall sent cs n, Forall (fun l => sorted l) cs -> n <= length (concat cs) ->
+  Definition seqmerge_stable_spec_at (sent : bool) : Prop :=
+    forall cs n, Forall (fun l => sorted l) cs -> n <= length (concat cs) ->
       fst (seqmerge true sent cs n) = firstn n (smerge cs).
+  (** the parallel path calls multiway_merge_base<Stable, false>: no sentinels *)
+  Definition seqmerge_stable_spec : Prop := seqmerge_stable_spec_at false.
 
   Lemma last_cons2 {X : Type} (rest : list X) : forall b b', last (b' :: rest) b = last rest b'.
   Proof.
@@ -301,8 +303,8 @@ Section Generic.
   (** ** unstable variant (partial): the per-thread merges are only known to be permutations of their
       chunks (the unstable sequential merge, C05, taken as a full merge of sorted sequences). *)
   Definition seqmerge_unstable_full_spec : Prop :=
-    forall sent cs, Forall (fun l => sorted l) cs ->
-      Permutation (fst (seqmerge false sent cs (length (concat cs)))) (concat cs).
+    forall cs, Forall (fun l => sorted l) cs ->
+      Permutation (fst (seqmerge false false cs (length (concat cs)))) (concat cs).
 
   Theorem run_threads_unstable_partial (seqs : list (list A)) size :
     Forall (fun l => sorted l) seqs -> seqmerge_unstable_full_spec ->
@@ -348,9 +350,9 @@ Section Generic.
 
   (** ** unstable variant: sortedness of the concatenated output *)
   Definition seqmerge_unstable_sorted_spec : Prop :=
-    forall sent cs, Forall (fun l => sorted l) cs ->
-      Permutation (fst (seqmerge false sent cs (length (concat cs)))) (concat cs) /\
-      sorted (fst (seqmerge false sent cs (length (concat cs)))).
+    forall cs, Forall (fun l => sorted l) cs ->
+      Permutation (fst (seqmerge false false cs (length (concat cs)))) (concat cs) /\
+      sorted (fst (seqmerge false false cs (length (concat cs)))).
 
   Lemma sorted_app (l1 : list A) : forall l2, sorted l1 -> sorted l2 ->
     (forall x y, In x l1 -> In y l2 -> ltb y x = false) -> sorted (l1 ++ l2).
@@ -369,7 +371,7 @@ Section Generic.
     run_threads false seqs size (b :: rest) = Some ts -> sorted (output ts).
   Proof.
     intros Hsorted Hspec.
-    assert (Hfull : seqmerge_unstable_full_spec) by (intros sent cs Hcs; apply (Hspec sent cs Hcs)).
+    assert (Hfull : seqmerge_unstable_full_spec) by (intros cs Hcs; apply (Hspec cs Hcs)).
     induction rest as [|b' rest IH]; intros b ts G H Hsz R.
     - simpl in R. injection R as <-. constructor.
     - destruct H as (H1 & G' & H3). pose proof G as (Gl & Gle & GS). pose proof G' as (Gl' & Gle' & GS').
@@ -389,7 +391,7 @@ Section Generic.
           (match thread_run false seqs size b b', run_threads false seqs size (b' :: rest) with
            | Some t, Some ts => Some (t :: ts) | _, _ => None end) in R.
       rewrite TR, R' in R. injection R as <-.
-      destruct (Hspec false (chunk seqs b b') (sorted_chunk seqs b b' Hsorted)) as [TP TS].
+      destruct (Hspec (chunk seqs b b') (sorted_chunk seqs b b' Hsorted)) as [TP TS].
       rewrite <- Hn in TP, TS.
       unfold output. simpl. apply sorted_app.
       + exact TS.
